@@ -213,6 +213,31 @@ static bool gen_c04(uint64_t seed, const std::string &tier, uint64_t i, Plan &p)
     p.label = "wide: " + std::string(local ? "local" : "remote") + " configured=" + std::to_string(configured) + " announced=" + std::to_string(announced) + " recipients=" + std::to_string(n);
     return true;
   }
+  if (i % 40 == 27 || i % 40 == 7) {
+    // startup scan with trouble: a message with unfinished recipients on both channels survives a clean restart, and the second
+    // daemon's first look at one of its files fails (stat of info/, local/ or remote/: EIO, ENOMEM, EINTR ...). The daemon retries
+    // the message 123 s later; until then - and afterwards - every recipient has at most one attempt in flight and is delivered once.
+    // (A family of its own since the eighth round: the general histories reach this only through particular plans, and under some
+    // seeds through none.)
+    Json conf = Json::obj(); conf.set("queuelifetime", 100000).set("concurrencylocal", (int)r.range(2, 6)).set("concurrencyremote", (int)r.range(2, 6)); p.knobs.set("conf", conf);
+    p.ops.push(Json::obj().set("op", "boot"));
+    int nl = (int)r.range(1, 3), nrm = (int)r.range(1, 3); Json rc = Json::arr();
+    auto scr = [&](const std::string &a) { Json sc = Json::obj(); sc.set("op", "script").set("rcpt", a); Json at = Json::arr();
+      at.push(Json::obj().set("v", "Z").set("text", "later").set("lat", (long long)r.below(3)));
+      if (r.chance(0.3)) at.push(Json::obj().set("v", "Z").set("text", "still later").set("lat", (long long)r.pick(std::vector<int64_t>{0, 5, 150, 300})));
+      at.push(Json::obj().set("v", r.chance(0.8) ? "K" : "D").set("text", "fin").set("lat", (long long)r.pick(std::vector<int64_t>{0, 5, 130, 200, 400}))); sc.set("attempts", at); p.ops.push(sc); };
+    for (int q = 0; q < nl; q++) { std::string a = "sl" + std::to_string(q) + "@l.example"; rc.push(a); scr(a); }
+    for (int q = 0; q < nrm; q++) { std::string a = "sr" + std::to_string(q) + "@r.example"; rc.push(a); scr(a); }
+    p.ops.push(Json::obj().set("op", "inject").set("id", "m1").set("sender", "s@x.example").set("rcpts", rc).set("body_len", 40).set("body_seed", 3));
+    p.ops.push(Json::obj().set("op", "settle").set("max_s", (long long)r.pick(std::vector<int64_t>{5, 20, 60})));
+    p.ops.push(Json::obj().set("op", "shutdown").set("max_s", 200000)); p.ops.push(Json::obj().set("op", "boot"));
+    Fault f; f.actor = "qmail-send#2"; f.call = C_STAT; f.path = r.pick(std::vector<std::string>{"/remote/", "/remote/", "/local/", "/info/"}); f.nth = 1; f.kind = "error"; f.err = r.pick(std::vector<int>{EIO, EIO, ENOMEM, EINTR, EACCES, ESTALE}); p.faults.push_back(f);
+    if (r.chance(0.3)) { Fault g = f; p.faults.push_back(g); }
+    p.ops.push(Json::obj().set("op", "settle").set("max_s", 500000));
+    p.knobs.set("oracles", oracle_list({"c04"})).set("expect_drain", true).set("max_sim_s", 3000000);
+    p.label = "startup scan with a failing stat on " + f.path;
+    return true;
+  }
   gen_history(r, p, mode, true);
   p.knobs.set("oracles", oracle_list({"c04"}));
   p.label = std::string("history/") + kModeNames[mode];
